@@ -6,4 +6,9 @@ export GOFLAGS=-mod=mod GOPROXY=off GOTOOLCHAIN=go1.24.0
 mkdir -p bin evidence replays
 cd harness && cat /repo/internal/app/go.sum /repo/go.work.sum 2>/dev/null | sort -u > go.sum
 go build -tags verif -o ../bin/vrun ./cmd/vrun || exit 1
+# warm the caches of the instrumented build and of the -race build
+W=$(mktemp -d ../bin/work.XXXXXX)
+go build -o "$W/instr" ./cmd/instr && "$W/instr" -repo /repo -out "$W/ov" -rt "$PWD/../rt/verifrt" >/dev/null && go build -tags "verif instr" -overlay "$W/ov/overlay.json" -o "$W/vrun" ./cmd/vrun || { rm -rf "$W"; exit 1; }
+go build -race -tags verif -o "$W/racemon" ./cmd/racemon || echo "note: race build unavailable"
+rm -rf "$W"
 echo setup ok
